@@ -497,20 +497,32 @@ pub fn scaling_histories(max_video: usize) -> Vec<(Cfg, Vec<Op>, String)> {
         })
         .collect();
     out.extend(shifted);
-    // samples larger than 64 KiB (16-bit and chunk-size thresholds in size handling)
-    for (codec, ac, fs) in [(VCodec::H264, Some(ACodec::AacLc), true), (VCodec::Vp9, None, false), (VCodec::H265, Some(ACodec::Opus), false), (VCodec::Av1, None, true)] {
-        for big_at in 0..3usize {
-            let cfg = Cfg::basic(codec, ac, fs);
-            let mut ops = vec![];
-            for i in 0..3usize {
-                let len = if i == big_at { 70_000 + i } else { 5 + i };
-                let (d, _) = video_frame(codec, i == 0, i == 0, i as u32 + 1, len);
-                ops.push(Op::WV { pts: T(i as f64 * unit), data: Bytes::new(d), key: i == 0 });
-                if let Some(a) = ac {
-                    ops.push(Op::WA { pts: T(i as f64 * unit), data: Bytes::new(audio_frame(a, i as u32, if i == big_at && a == ACodec::Opus { 66_000 } else { 6 }).0) });
+    // samples larger than 64 KiB: a ladder of sizes around every power of two up to 2 MiB (16 MiB
+    // in the thorough tier), so that staging-buffer, chunk-size and 16/24-bit thresholds in the
+    // size handling are crossed with smaller samples scheduled before and after the large one
+    let mut ladder: Vec<usize> = vec![70_000, (1 << 17) + 1, (1 << 18) - 1, 1 << 18, (1 << 18) + 5, (1 << 19) + 3, (1 << 20) + 7, (1 << 21) + 1];
+    if max_video > 48 {
+        ladder.extend([(1 << 22) + 2, (1 << 23) + 5, (1 << 24) + 9]);
+    }
+    for (li, &big) in ladder.iter().enumerate() {
+        for (codec, ac, fs) in [(VCodec::H264, Some(ACodec::AacLc), true), (VCodec::Vp9, None, false), (VCodec::H265, Some(ACodec::Opus), false), (VCodec::Av1, None, true), (VCodec::H264, Some(ACodec::Opus), true), (VCodec::H265, Some(ACodec::AacLc), false)] {
+            for big_at in 0..3usize {
+                // the full product for the first rung; beyond it the position and the configuration cycle
+                if li > 0 && (big_at + li) % 3 != 0 {
+                    continue;
                 }
+                let cfg = Cfg::basic(codec, ac, fs);
+                let mut ops = vec![];
+                for i in 0..3usize {
+                    let len = if i == big_at { big + i } else { 5 + i };
+                    let (d, _) = video_frame(codec, i == 0, i == 0, i as u32 + 1, len);
+                    ops.push(Op::WV { pts: T(i as f64 * unit), data: Bytes::new(d), key: i == 0 });
+                    if let Some(a) = ac {
+                        ops.push(Op::WA { pts: T(i as f64 * unit), data: Bytes::new(audio_frame(a, i as u32, if i == big_at && a == ACodec::Opus { big - 4_000 } else { 6 }).0) });
+                    }
+                }
+                out.push((cfg, ops, format!("sample of {big} bytes at {big_at}")));
             }
-            out.push((cfg, ops, format!("large sample at {big_at}")));
         }
     }
     // AAC frames whose ADTS frame length crosses every power of two up to the 13-bit maximum
